@@ -352,25 +352,25 @@ func opcodeUnit(drawing bool, op byte, thorough bool) Unit {
 // Fragments is the reduced alphabet for instruction sequences: one
 // representative per opcode group and mode switch, valid and invalid.
 var Fragments = [][]byte{
-	{0x05},                         // CSEL / L x6 (needs operands) in drawing mode
-	{0x45},                         // NSEL
-	{0x80, 0x7c},                   // CREG 1 byte
-	{0x9f, 0x10, 0x20, 0x30, 0x40}, // CREG 4 byte, incr
-	{0xa1, 0x40, 0x7f, 0x80},       // CREG blend adj 1
-	{0xa8, 0x28},                   // NREG real
-	{0xb7, 0x81, 0x87},             // NREG coord 2 byte, incr
-	{0xbe, 0x63, 0x0b, 0x36, 0x3b}, // NREG zero-to-one 4 byte adj 6
-	{0xc7, 0x10, 0x41, 0x00},       // LOD
-	{0xc0, 0x80, 0x80},             // start path
+	{0x05},                               // CSEL / L x6 (needs operands) in drawing mode
+	{0x45},                               // NSEL
+	{0x80, 0x7c},                         // CREG 1 byte
+	{0x9f, 0x10, 0x20, 0x30, 0x40},       // CREG 4 byte, incr
+	{0xa1, 0x40, 0x7f, 0x80},             // CREG blend adj 1
+	{0xa8, 0x28},                         // NREG real
+	{0xb7, 0x81, 0x87},                   // NREG coord 2 byte, incr
+	{0xbe, 0x63, 0x0b, 0x36, 0x3b},       // NREG zero-to-one 4 byte adj 6
+	{0xc7, 0x10, 0x41, 0x00},             // LOD
+	{0xc0, 0x80, 0x80},                   // start path
 	{0xc6, 0x90, 0x03, 0x00, 0xf0, 0x40}, // start path adj 6, mixed widths
 	{0xc8},                               // reserved (styling) / A x9 in drawing
 	{0x00, 0x82, 0x84},                   // L x1
 	{0x21, 0x82, 0x84, 0x86, 0x88},       // l x2
 	{0x40, 0x90, 0x92},                   // T
 	{0x70, 0x82, 0x84, 0x86, 0x88},       // q
-	{0x81, 0x82, 0x84, 0x86, 0x88, 0x72, 0x74, 0x76, 0x78}, // S x2
-	{0xb0, 0x82, 0x84, 0x86, 0x88, 0x8a, 0x8c},             // c
-	{0xc0, 0x84, 0x84, 0x0a, 0x02, 0x90, 0x92},             // A
+	{0x81, 0x82, 0x84, 0x86, 0x88, 0x72, 0x74, 0x76, 0x78},                               // S x2
+	{0xb0, 0x82, 0x84, 0x86, 0x88, 0x8a, 0x8c},                                           // c
+	{0xc0, 0x84, 0x84, 0x0a, 0x02, 0x90, 0x92},                                           // A
 	{0xd1, 0x84, 0x86, 0x00, 0x04, 0x70, 0x72, 0x84, 0x86, 0x41, 0x1a, 0x06, 0x90, 0x92}, // a x2
 	{0xe1},             // Z
 	{0xe2, 0x70, 0x72}, // Y
